@@ -128,7 +128,41 @@ def finalize_key(k, j):
 
 
 def expects_error(case):
-    return len(case["rows"]) > 1 and any(k.get("odd", "").startswith("bad-") for k in case["keys"])
+    return len(case["rows"]) > 1 and (any(k.get("odd", "").startswith("bad-") for k in case["keys"]) or bool(case.get("abort")))
+
+
+def gen_abort_pair(r, maxn=10):
+    """a sort that ABORTS after some key values were cached (a run-time error in a later key expression, reached
+    only when two nodes tie on the keys before it; or in an AVT of a later xsl:sort), followed on the same
+    transformer by an ordinary sort with the same key types and no more nodes"""
+    while True:
+        first = gen_case(r, maxn=maxn, maxkeys=r.range(1, 3))
+        if len(first["rows"]) >= 3 and not any(k.get("odd") for k in first["keys"]) \
+                and not any(k["form"] in ("pos", "rpos") for k in first["keys"]):
+            break
+    first["abort"] = r.weighted([("boom", 4), ("badkey", 3), ("nofunc", 2), ("avt", 2)])
+    if r.chance(1, 8):
+        first["keys"], first["rows"] = [], [[] for _ in first["rows"]]      # the aborting key is the only key
+    n = len(first["rows"])
+    # make a tie on all ordinary keys likely: copy a row
+    if n >= 2 and r.chance(3, 4):
+        first["rows"][r.below(n)] = list(first["rows"][r.below(n)])
+    import copy
+    second = copy.deepcopy(first)
+    second.pop("abort")
+    second["rows"] = []
+    m = r.range(2, n)
+    prof = r.choice(["few", "wide", "sentinel"])
+    for _ in range(m):
+        second["rows"].append([gen_value(r, k, prof) for k in second["keys"]])
+    if not second["keys"]:
+        k = {"number": r.chance(1, 2), "desc": r.chance(1, 2), "form": "attr", "order_deco": "lit", "type_deco": "lit", "extra": "", "odd": ""}
+        finalize_key(k, 0)
+        second["keys"] = [k]
+        second["rows"] = [[gen_value(r, k, prof)] for _ in range(m)]
+    second["noise"] = [False] * (m + 1) if second.get("subset") else []
+    second["mode"] = r.choice(["fe", "at"])
+    return [first, second]
 
 
 def gen_case(r, maxn=12, maxkeys=4):
@@ -349,6 +383,13 @@ def build(case):
             echo.append('|<xsl:value-of select="number(%s)"/>' % e)
         else:
             echo.append('|<xsl:value-of select="string(%s)"/>' % e)
+    ab = case.get("abort")
+    if ab:
+        expr = {"boom": "p:boom(@id)", "badkey": "key('undeclared', @id)", "nofunc": "q:nosuch(@id)"}.get(ab)
+        if ab == "avt":
+            sorts.append('<xsl:sort select="@id" order="{p:boom(1)}"/>')
+        else:
+            sorts.append('<xsl:sort select="%s"/>' % expr)
     body = ('[<xsl:value-of select="@id"/>|<xsl:value-of select="position()"/>|<xsl:value-of select="last()"/>'
             + "".join(echo) + "]")
     if case.get("inner_sort"):
@@ -384,7 +425,7 @@ def build(case):
     if case["nest"]:
         inner = '<xsl:for-each select="/r/g">%s</xsl:for-each>' % inner
     xsl = ('<?xml version="1.0"?><xsl:stylesheet version="1.0" xmlns:xsl="http://www.w3.org/1999/XSL/Transform" '
-           'xmlns:p="%s" exclude-result-prefixes="p"><xsl:output method="text"/>'
+           'xmlns:p="%s" xmlns:q="urn:verif:none" exclude-result-prefixes="p q"><xsl:output method="text"/>'
            '<xsl:template match="/">%s%s</xsl:template>%s</xsl:stylesheet>' % (PROBE_NS, presort, inner, templ))
     return request_line(case, xml, xsl), xml, xsl
 
@@ -394,7 +435,10 @@ def abstract_fields(case):
     for j, k in enumerate(keys):
         if "dt_raw" not in k:
             finalize_key(k, j)
-    ks = ",".join("%s/%s/%s" % (k["dt_raw"], k["order_raw"], k["co_raw"]) for k in keys) or "-"
+    toks = ["%s/%s/%s" % (k["dt_raw"], k["order_raw"], k["co_raw"]) for k in keys]
+    if case.get("abort"):
+        toks.append("AVTBOOM" if case["abort"] == "avt" else "BOOM")
+    ks = ",".join(toks) or "-"
     rs = []
     for row in rows:
         vs = []
@@ -405,6 +449,8 @@ def abstract_fields(case):
                 vs.append("s%d" % case["pool"].index(v[1]))
             else:
                 vs.append(v[1] if v[1] else "_")
+        if case.get("abort"):
+            vs.append("x")
         rs.append(",".join(vs))
     return ks, str(len(rows)), (";".join(rs) if rows else "-")
 
@@ -468,5 +514,7 @@ def describe(case):
         rows += " coll=%r" % ([k.get("coll") for k in case["keys"]],)
         if case.get("pre_sort"):
             rows += " pre_sort=%r" % (case["pre_sort"],)
+    if case.get("abort"):
+        ks += " ABORT:" + case["abort"]
     return "%s%s%s%s%s keys[%s] rows[%s]" % (case["mode"], "+nest" if case["nest"] else "", "+subset" if case.get("subset") else "",
                                          "+selvar" if case.get("selvar") else "", "+inner" if case.get("inner_sort") else "", ks, rows)
